@@ -19,6 +19,12 @@ Contracts evaluated at run time on the real bionumpy functions (one `op` per con
                        covered bases are the original bases inside [0,size)
   extend               extend_to_size: inside the contig, + keeps start, - keeps stop, length == min(L, room)
   geom_pileup/geom_mask/geom_clip/geom_extend   the Geometry methods over a 2-contig genome
+  sort_history         SEVERAL sort_intervals calls in one process, each with its own way of ordering the SAME chromosome
+                       names (sort_order lists, default string order, key functions returning str / int / tuple, bionumpy's
+                       human_key_func, StringEncoding column): every call is ordered by ITS OWN chromosome ranking
+The two-set operations (count_overlap, intersect, global_intersect, unique_intersect, jaccard / forbes) are also evaluated
+on sets that are NOT listed in ascending start order (case key "listing": every permutation of the enumerated sets, for
+both operands); the per-base definitions do not depend on the listing order, so the oracle is the same.
 Every contract also checks that the input Interval object is left unchanged by the call.
 """
 import itertools
@@ -27,6 +33,7 @@ from fractions import Fraction
 from .common import Collector
 
 CHR = "chr1"
+LISTING_TAG = ":unsorted-listing"     # suffix of the signatures of the cases whose sets are not listed in ascending order
 
 
 # ----------------------------------------------------------------------------------------------------------------
@@ -241,50 +248,137 @@ def chk_sort(col, case):
     unchanged(col, "sort", case, before, (I, names))
 
 
+# -- chromosome orderings used by the histories of sort calls.  A key function is an INPUT of sort_intervals (the caller's
+#    own function), so the oracle ranks chromosomes with the same function; bionumpy's human_key_func is library code, so it
+#    gets a reference of its own (numbered chromosomes first, by number; then the others, by name).
+def _digits(name):
+    d = "".join(ch for ch in name if ch.isdigit())
+    return int(d) if d else 99
+
+
+KEY_FUNCTIONS = {
+    "natural": natkey,                                   # tuple (int, str)
+    "neglen": lambda name: (-len(name), name),           # tuple (int, str), longest name first
+    "reversed": lambda name: name[::-1],                 # str, like the default key but another order
+    "number": _digits,                                   # int
+    "constant": lambda name: 0,                          # every chromosome ranks equal: plain (start, stop) order
+}
+
+
+def ref_human_key(name):
+    rest = name[3:]
+    return (0, int(rest), "") if rest.isdigit() else (1, rest, "")
+
+
+def ordering_label(o):
+    return o["kind"] + (":" + o["key"] if o["kind"] == "key_function" else "")
+
+
+def same_ranking(o1, o2, names):
+    """do two orderings rank the given chromosome names identically (same sequence of names, same ties)?"""
+    def shape(o):
+        r = {n: _ordering(o)[0](n) for n in names}
+        return [[r[x] < r[y], r[x] == r[y]] for x in names for y in names]
+    return shape(o1) == shape(o2)
+
+
+def _ordering(o):
+    """-> (rank function of the oracle, keyword arguments of the call, names of the StringEncoding or None)"""
+    kind = o["kind"]
+    if kind == "default":
+        return (lambda c: c), {}, None
+    if kind == "sort_order":
+        order = list(o["order"])
+        return order.index, {"sort_order": list(order)}, None
+    if kind == "string_encoded":
+        order = list(o["order"])
+        return order.index, {}, order
+    if o["key"] == "human":
+        from bionumpy.arithmetics.intervals import human_key_func
+        return ref_human_key, {"chromosome_key_function": human_key_func}, None
+    f = KEY_FUNCTIONS[o["key"]]
+    return f, {"chromosome_key_function": f}, None
+
+
+def chk_sort_history(col, case):
+    """case: steps [{"rows": [[chrom,a,b],...], "ordering": {...}}, ...]: the sort_intervals calls are made one after the
+    other in this process; EVERY call must return a permutation of its rows ordered by (its own chromosome rank, start, stop),
+    whatever orderings the earlier calls asked for"""
+    from bionumpy.arithmetics import sort_intervals
+    steps = case["steps"]
+    col.case(case, nontrivial=len(steps) > 1 and any(len(s["rows"]) > 1 for s in steps), contract="sort_history")
+    earlier = []
+    for i, step in enumerate(steps):
+        rows, o = [tuple(r) for r in step["rows"]], step["ordering"]
+        rank, kwargs, names = _ordering(o)
+        lab = ordering_label(o)
+        used = sorted({r[0] for r in rows})
+        if not earlier:
+            when = "first-call"
+        elif all(same_ranking(o, e, used) for e in earlier):
+            when = "after-same-ordering"
+        else:
+            when = "after-other-ordering"
+        earlier.append(o)
+        I = mk_rows(rows)
+        if names is not None:
+            if not rows:
+                continue
+            I = string_encode(I, names)
+        before = [snapshot(I, names)]
+        res = col.guarded(lambda: sort_intervals(I, **kwargs), "sort_history:%s:%s" % (lab, when), case)
+        if res is None:
+            return
+        inp = list(zip(chrom_names(I, names), *zip(*pairs_of(I)))) if len(I) else []
+        out = list(zip(chrom_names(res, names), *zip(*pairs_of(res)))) if len(res) else []
+        what = "call %d of %d (%s): out %r" % (i + 1, len(steps), lab, out)
+        if not col.check(sorted(inp) == sorted(out), "sort_history:not-a-permutation:%s:%s" % (lab, when), case, "in %r " % (inp,) + what):
+            return
+        keys = [(rank(r[0]), r[1], r[2]) for r in out]
+        for k1, k2 in zip(keys, keys[1:]):
+            if k1[0] > k2[0]:
+                col.fail("sort_history:chromosome-order:%s:%s" % (lab, when), case, what)
+            elif k1[0] == k2[0] and k1[1] > k2[1]:
+                col.fail("sort_history:start-order:%s:%s" % (lab, when), case, what)
+            elif k1[:2] == k2[:2] and k1[2] > k2[2]:
+                # the lexsort of a StringEncoding column ignores the stops in every call, history or not: that is the
+                # finding of the single-call contract and keeps its signature
+                sig = "sort:stop-order:string_encoded" if names is not None else "sort_history:stop-order:%s:%s" % (lab, when)
+                col.fail(sig, case, "equal (chromosome,start) but stops decrease: " + what)
+        unchanged(col, "sort_history", case, before, (I, names))
+
+
 def chk_pair(col, case):
-    """ops count_overlap, intersect. case: S, A, B (each sorted, internally non-overlapping, non-empty intervals)"""
+    """ops count_overlap, intersect. case: S, A, B (each internally non-overlapping, non-empty intervals; listed in ascending
+    order unless the case has "listing": "permuted", then A and B are given in the listing order to use)"""
     op, S = case["op"], case["S"]
     A, B = [tuple(x) for x in case["A"]], [tuple(x) for x in case["B"]]
-    col.case(case, nontrivial=bool(A) and bool(B), contract=op)
+    lt = LISTING_TAG if case.get("listing") else ""
+    col.case(case, nontrivial=bool(A) and bool(B), contract=op + lt.replace(":", "/"))
     IA, IB = mk(A), mk(B)
     before = [snapshot(IA), snapshot(IB)]
     both = [int(x > 0 and y > 0) for x, y in zip(cov(A, S), cov(B, S))]
     if op == "count_overlap":
         from bionumpy.arithmetics import count_overlap
-        got = col.guarded(lambda: int(count_overlap(IA, IB)), "count_overlap", case)
+        got = col.guarded(lambda: int(count_overlap(IA, IB)), "count_overlap" + lt, case)
         if got is None:
             return
-        col.check(got == sum(both), "count_overlap:not-number-of-common-bases", case, "got %r expected %r" % (got, sum(both)))
+        col.check(got == sum(both), "count_overlap:not-number-of-common-bases" + lt, case, "got %r expected %r" % (got, sum(both)))
     else:
         from bionumpy.arithmetics import intersect
-        res = col.guarded(lambda: intersect(IA, IB), "intersect", case)
+        res = col.guarded(lambda: intersect(IA, IB), "intersect" + lt, case)
         if res is None:
             return
         got = pairs_of(res)
         ok = all(0 <= a < b <= S for a, b in got)
-        col.check(ok and cov(got, S) == both, "intersect:not-common-bases", case,
+        col.check(ok and cov(got, S) == both, "intersect:not-common-bases" + lt, case,
                   "got %r, covering %r; expected coverage %r" % (got, cov(got, S) if ok else None, both))
         if len(res):
-            col.check(set(chrom_names(res)) == {CHR}, "intersect:chromosome-changed", case, "%r" % (chrom_names(res),))
-    unchanged(col, op, case, before, IA, IB)
+            col.check(set(chrom_names(res)) == {CHR}, "intersect:chromosome-changed" + lt, case, "%r" % (chrom_names(res),))
+    unchanged(col, op + lt, case, before, IA, IB)
 
 
-def chk_global_intersect(col, case):
-    """case: sizes [[name,S],...], A, B rows [chrom,a,b]; per chromosome internally non-overlapping; sorted"""
-    from bionumpy.arithmetics import global_intersect
-    sizes = [tuple(x) for x in case["sizes"]]
-    names = [n for n, _ in sizes]
-    A, B = [tuple(r) for r in case["A"]], [tuple(r) for r in case["B"]]
-    used = {r[0] for r in A + B}
-    scope = "multi-chromosome" if len(used) > 1 else "single-chromosome"
-    col.case(case, nontrivial=bool(A) and bool(B), contract="global_intersect")
-    IA, IB = string_encode(mk_rows(A), names), string_encode(mk_rows(B), names)
-    if IA is None or IB is None:
-        return
-    before = [snapshot(IA, names), snapshot(IB, names)]
-    res = col.guarded(lambda: global_intersect(IA, IB), "global_intersect:" + scope, case)
-    if res is None:
-        return
+def _global_intersect_ok(res, names, sizes, A, B):
     got = list(zip(chrom_names(res, names), *zip(*pairs_of(res)))) if len(res) else []
     ok = True
     for n, S in sizes:
@@ -292,26 +386,62 @@ def chk_global_intersect(col, case):
         b = cov([r[1:] for r in B if r[0] == n], S)
         g = [r[1:] for r in got if r[0] == n]
         ok = ok and all(0 <= x < y <= S for x, y in g) and cov(g, S) == [int(x > 0 and y > 0) for x, y in zip(a, b)]
-    col.check(ok, "global_intersect:not-common-bases:" + scope, case, "got %r" % (got,))
+    return ok, got
+
+
+def chk_global_intersect(col, case):
+    """case: sizes [[name,S],...], A, B rows [chrom,a,b]; per chromosome internally non-overlapping; sorted by
+    (chromosome, start) unless the case has "listing": "permuted" (then any row order, chromosomes may interleave)"""
+    from bionumpy.arithmetics import global_intersect
+    sizes = [tuple(x) for x in case["sizes"]]
+    names = [n for n, _ in sizes]
+    A, B = [tuple(r) for r in case["A"]], [tuple(r) for r in case["B"]]
+    used = {r[0] for r in A + B}
+    scope = "multi-chromosome" if len(used) > 1 else "single-chromosome"
+    lt = LISTING_TAG if case.get("listing") else ""
+    col.case(case, nontrivial=bool(A) and bool(B), contract="global_intersect" + lt.replace(":", "/"))
+    IA, IB = string_encode(mk_rows(A), names), string_encode(mk_rows(B), names)
+    if IA is None or IB is None:
+        return
+    before = [snapshot(IA, names), snapshot(IB, names)]
+    res = col.guarded(lambda: global_intersect(IA, IB), "global_intersect:" + scope + lt, case)
+    if res is None:
+        return
+    ok, got = _global_intersect_ok(res, names, sizes, A, B)
+    if not ok and lt:
+        # Which defect class?  The expected value above is the per-base one in any case.  If the SAME two sets listed in
+        # ascending order are wrong as well, the listing order is not what the failure needs and it is reported under the
+        # signature of the sorted listing (one defect, one signature); otherwise it is a defect of unsorted listings.
+        SA, SB = sorted_rows(A, names), sorted_rows(B, names)
+        try:
+            res_sorted = global_intersect(string_encode(mk_rows(SA), names), string_encode(mk_rows(SB), names))
+            ok_sorted = _global_intersect_ok(res_sorted, names, sizes, SA, SB)[0]
+        except Exception:
+            ok_sorted = True
+        if not ok_sorted:
+            lt = ""
+    col.check(ok, "global_intersect:not-common-bases:" + scope + lt, case, "got %r" % (got,))
     unchanged(col, "global_intersect", case, before, (IA, names), (IB, names))
 
 
 def chk_unique_intersect(col, case):
-    """case: S, A, B (non-empty intervals, any multiset)"""
+    """case: S, A, B (non-empty intervals, any multiset, in the listing order to use; "listing": "permuted" marks the cases
+    that go through every listing order instead of one fixed rotation)"""
     from bionumpy.arithmetics import unique_intersect
     S = case["S"]
     A, B = [tuple(x) for x in case["A"]], [tuple(x) for x in case["B"]]
-    col.case(case, nontrivial=bool(A) and bool(B), contract="unique_intersect")
+    lt = ":every-listing-order" if case.get("listing") else ""
+    col.case(case, nontrivial=bool(A) and bool(B), contract="unique_intersect" + lt.replace(":", "/"))
     IA, IB = mk(A), mk(B)
     before = [snapshot(IA), snapshot(IB)]
-    res = col.guarded(lambda: unique_intersect(IA, IB, S), "unique_intersect", case)
+    res = col.guarded(lambda: unique_intersect(IA, IB, S), "unique_intersect" + lt, case)
     if res is None:
         return
     cb = cov(B, S)
     exp = [(a, b) for a, b in A if any(cb[a:b])]
     got = pairs_of(res)
-    col.check(sorted(got) == sorted(exp), "unique_intersect:not-the-entries-sharing-a-base", case, "got %r expected %r" % (got, exp))
-    unchanged(col, "unique_intersect", case, before, IA, IB)
+    col.check(sorted(got) == sorted(exp), "unique_intersect:not-the-entries-sharing-a-base" + lt, case, "got %r expected %r" % (got, exp))
+    unchanged(col, "unique_intersect" + lt, case, before, IA, IB)
 
 
 def close(x, frac):
@@ -320,7 +450,9 @@ def close(x, frac):
 
 
 def chk_similarity(col, case):
-    """case: sizes [[name,S],...], A, B rows sorted by (chromosome order, start)"""
+    """case: sizes [[name,S],...], A, B rows sorted by (chromosome order, start); with "listing": "permuted" the rows of each
+    chromosome are contiguous and the chromosomes in genome order (what the grouped streams need), but the intervals of a
+    chromosome are listed in any order"""
     from bionumpy.arithmetics import jaccard, forbes
     from bionumpy.genomic_data.geometry import Geometry
     sizes = [tuple(x) for x in case["sizes"]]
@@ -338,6 +470,8 @@ def chk_similarity(col, case):
     sizes_dict = dict(sizes)
     nchr = "2-contigs" if len(sizes) > 1 else "1-contig"
     es = ":empty-interval-set" if (not A or not B) else ""
+    if case.get("listing"):
+        es += LISTING_TAG
     IA, IB = mk_rows(A), mk_rows(B)
     before = [snapshot(IA), snapshot(IB)]
     if a + b + c > 0:
@@ -353,10 +487,10 @@ def chk_similarity(col, case):
     if (a + b) > 0 and (a + c) > 0:
         exp = Fraction(a * N, (a + b) * (a + c))
         col.case(dict(case, f="forbes"), nontrivial=True, contract="forbes")
-        got = col.guarded(lambda: float(forbes(dict(sizes_dict), IA, IB)), "forbes", case)
+        got = col.guarded(lambda: float(forbes(dict(sizes_dict), IA, IB)), "forbes" + (LISTING_TAG if case.get("listing") else ""), case)
         if got is not None:
-            col.check(close(got, exp), "forbes:not-aN/((a+b)(a+c)):" + nchr, case, "got %r expected %s (a,b,c,d=%r)" % (got, exp, (a, b, c, d)))
-    unchanged(col, "similarity", case, before, IA, IB)
+            col.check(close(got, exp), "forbes:not-aN/((a+b)(a+c)):" + nchr + (LISTING_TAG if case.get("listing") else ""), case, "got %r expected %s (a,b,c,d=%r)" % (got, exp, (a, b, c, d)))
+    unchanged(col, "similarity" + (LISTING_TAG if case.get("listing") else ""), case, before, IA, IB)
 
 
 def _clip_rows(col, op, case, rows, sizes_of_rows, got):
@@ -464,6 +598,7 @@ def chk_geom(col, case):
 
 
 CHECKS = {"pileup": chk_coverage, "bg_pileup": chk_coverage, "mask": chk_coverage, "merge": chk_merge, "sort": chk_sort,
+          "sort_history": chk_sort_history,
           "count_overlap": chk_pair, "intersect": chk_pair, "global_intersect": chk_global_intersect,
           "unique_intersect": chk_unique_intersect, "similarity": chk_similarity, "clip": chk_clip, "extend": chk_extend,
           "geom_pileup": chk_geom, "geom_mask": chk_geom, "geom_clip": chk_geom, "geom_extend": chk_geom}
@@ -493,6 +628,29 @@ def rotate(l):
     return l[1:] + l[:1]
 
 
+def listings(s):
+    """every distinct listing order of a multiset, the given (ascending) one first"""
+    out = []
+    for p in itertools.permutations(s):
+        if list(p) not in out:
+            out.append(list(p))
+    return out
+
+
+def chromosome_wise_listings(rows, names):
+    """every listing of the rows that keeps the chromosomes contiguous and in the order of `names`, the sorted one first"""
+    per = [listings([r for r in rows if r[0] == n]) for n in names]
+    return [sum(c, []) for c in itertools.product(*per)]
+
+
+def sort_orderings(names, keys=("natural", "neglen", "reversed", "number", "constant", "human"), encoded=1):
+    out = [{"kind": "default"}]
+    out += [{"kind": "sort_order", "order": list(p)} for p in itertools.permutations(names)]
+    out += [{"kind": "key_function", "key": k} for k in keys]
+    out += [{"kind": "string_encoded", "order": list(p)} for p in list(itertools.permutations(names))[::-1][:encoded]]
+    return out
+
+
 def start_sorted_sequences(items, maxn):
     """all sequences with non-decreasing start (every order of the stops among equal starts)"""
     for s in sequences(items, maxn):
@@ -512,7 +670,7 @@ def sorted_rows(rows, names):
     return sorted(rows, key=lambda r: (names.index(r[0]), r[1], r[2]))
 
 
-def gen_cases(tier, rng):
+def gen_cases(tier, rng, rng_seed=0):
     """yields (section, case).  Sections are ordered small to large so that the first failure of a class is small."""
     quick = tier == "quick"
     SMAX = 6
@@ -665,6 +823,113 @@ def gen_cases(tier, rng):
         rows = [(rng.choice(["chr1", "chr2", "chr10"]),) + x for x in rand_set(n, empty_ok=True)]
         yield "sampled", {"op": "sort", "rows": rows, "variant": rng.choice(variants), "dtype": rng.choice(["Interval", "Bed6"])}
 
+    # == cases added for listing orders and call histories ============================================================
+    # -- count_overlap / intersect: the same pairs of sets, every listing order of both operands except both ascending ---
+    for S in range(1, SMAX + 1):
+        full = disjoint_sets(S, 3)
+        if S > (4 if quick else 5):
+            full = [s for s in full if len(s) <= 2]
+        if S == SMAX and quick:
+            continue
+        for A, B in itertools.product(full, full):
+            for PA in listings(A):
+                for PB in listings(B):
+                    if PA == A and PB == B:
+                        continue
+                    for op in ("count_overlap", "intersect"):
+                        yield "pairs_permuted", {"op": op, "S": S, "A": PA, "B": PB, "listing": "permuted"}
+    # -- global_intersect: any row order (chromosomes may interleave) ---------------------------------------------------
+    for s1, s2 in ([(2, 2)] if quick else [(2, 2), (3, 2)]):
+        sizes = [("chr1", s1), ("chr2", s2)]
+        names = ["chr1", "chr2"]
+        sets = [sorted_rows(s, names) for s in multisets(genome_rows(sizes), 2 if (quick or s1 > 2) else 3)
+                if s and all(disjoint([r[1:] for r in s if r[0] == n], S) for n, S in sizes)]
+        for A, B in itertools.product(sets, sets):
+            for PA in listings(A):
+                for PB in listings(B):
+                    if PA == A and PB == B:
+                        continue
+                    yield "two_set_permuted", {"op": "global_intersect", "sizes": sizes, "A": PA, "B": PB, "listing": "permuted"}
+    # -- unique_intersect: every listing order other than the one rotation evaluated above ---------------------------------
+    for S in range(1, (3 if quick else 4) + 1):
+        items = intervals_of(S)
+        for A in multisets(items, 2):
+            for B in multisets(items, 3 if len(A) <= 1 else 2):
+                for PA in listings(A):
+                    for PB in listings(B):
+                        if PA == rotate(A) and PB == rotate(B):
+                            continue
+                        yield "two_set_permuted", {"op": "unique_intersect", "S": S, "A": PA, "B": PB, "listing": "permuted"}
+    # -- jaccard / forbes: intervals of a chromosome in any order ------------------------------------------------------------
+    for sizes, maxn in ([([("chr1", 2)], 3), ([("chr1", 1), ("chr2", 2)], 2)] if quick else
+                        [([("chr1", 2)], 3), ([("chr1", 3)], 2), ([("chr1", 1), ("chr2", 2)], 3), ([("chr1", 2), ("chr2", 2)], 2)]):
+        names = [n for n, _ in sizes]
+        sets = [sorted_rows(s, names) for s in multisets(genome_rows(sizes), maxn)]
+        lists = [(s, chromosome_wise_listings(s, names)) for s in sets]
+        for (A, LA), (B, LB) in itertools.product(lists, lists):
+            # quick: both operands in their reversed listing; thorough: every pair of listings except both ascending
+            for PA, PB in ([(LA[-1], LB[-1])] if quick else itertools.product(LA, LB)):
+                if (PA, PB) != (A, B):
+                    yield "similarity_permuted", {"op": "similarity", "sizes": sizes, "A": PA, "B": PB, "listing": "permuted"}
+    # -- histories of sort_intervals calls with different chromosome orderings for the same names -----------------------
+    names3 = ["chr1", "chr2", "chr10"]
+    base3 = [("chr1", 0, 2), ("chr2", 1, 2), ("chr10", 0, 1)]
+    pool3 = sort_orderings(names3)
+    rows3 = [list(p) for n in (2, 3) for p in itertools.permutations(base3, n)]
+    if not quick:
+        rows3 += [list(p) for p in itertools.product(base3 + [("chr2", 0, 1)], repeat=3) if len(set(p)) < 3 and len({r[0] for r in p}) > 1]
+    for o1, o2 in itertools.product(pool3, pool3):
+        for k, rows in enumerate(rows3):
+            # the second call sorts the same rows, or (every other case) another listing of them with one row replaced
+            rows2 = rows if k % 2 == 0 else rotate(rows)[:-1] + [(rows[0][0], 1, 2)]
+            yield "sort_history", {"op": "sort_history", "steps": [{"rows": rows, "ordering": o1}, {"rows": rows2, "ordering": o2}]}
+    pool3s = [o for o in pool3 if o["kind"] != "sort_order" or o["order"] in (["chr2", "chr10", "chr1"], ["chr10", "chr1", "chr2"])]
+    pool3s = [o for o in pool3s if o.get("key") not in (() if not quick else ("neglen", "number"))]
+    for hist in itertools.product(pool3s, repeat=3):
+        for rows in ([base3, base3[::-1]] if quick else rows3[:12]):
+            yield "sort_history", {"op": "sort_history", "steps": [{"rows": rotate(rows) if i == 1 else rows, "ordering": o} for i, o in enumerate(hist)]}
+    names4 = ["chr1", "chr2", "chr10", "chrX"]
+    base4 = base3 + [("chrX", 1, 2)]
+    pool4 = sort_orderings(names4, encoded=2)
+    if quick:
+        pool4 = [o for i, o in enumerate(pool4) if o["kind"] != "sort_order" or i % 5 == 0]
+    for o1, o2 in itertools.product(pool4, pool4):
+        for rows in ([base4, base4[::-1]] if quick else [base4, base4[::-1], rotate(base4), base4[:2] + base4[3:], base4[1:][::-1]]):
+            yield "sort_history", {"op": "sort_history", "steps": [{"rows": rows, "ordering": o1}, {"rows": rows[::-1], "ordering": o2}]}
+    # -- sampled: larger contigs, unsorted listings and longer histories -------------------------------------------------
+    import random
+    prng = random.Random("C08-listings-%s" % rng_seed)
+    for i in range(300 if quick else 5000):
+        S = prng.randint(7, 40)
+
+        def shuffled_disjoint(k):
+            cuts = sorted(prng.sample(range(S + 1), min(2 * k, S + 1) // 2 * 2))
+            out = [(cuts[j], cuts[j + 1]) for j in range(0, len(cuts) - 1, 2)]
+            if len(out) > 1 and prng.random() < 0.5:
+                j = prng.randrange(len(out) - 1)
+                out[j] = (out[j][0], out[j + 1][0])
+            asc = list(out)
+            while len(out) > 1 and out == asc:
+                prng.shuffle(out)
+            return out
+
+        A, B = shuffled_disjoint(prng.randint(2, 7)), shuffled_disjoint(prng.randint(1, 7))
+        if prng.random() < 0.3:
+            B = sorted(B)
+        if prng.random() < 0.5:
+            A, B = B, A
+        for op in ("count_overlap", "intersect"):
+            yield "sampled_permuted", {"op": op, "S": S, "A": A, "B": B, "listing": "permuted"}
+        steps = []
+        n = prng.randint(4, 10)
+        for _ in range(prng.randint(2, 4)):
+            rows = []
+            for _ in range(n):
+                a = prng.randint(0, S - 1)
+                rows.append((prng.choice(names4), a, prng.randint(a, S)))
+            steps.append({"rows": rows, "ordering": prng.choice(pool4)})
+        yield "sampled_permuted", {"op": "sort_history", "steps": steps}
+
 
 def run(tier="quick", seed=0):
     quick = tier == "quick"
@@ -703,14 +968,16 @@ def run(tier="quick", seed=0):
     # half of it (quick ~35 s, thorough ~6 min); the sum is the worst case.
     if quick:
         allot = {"clip": 2, "extend": 2, "geometry": 4, "merge": 6, "pairs": 8, "global_intersect": 2, "coverage": 11, "sort": 9,
-                 "unique_intersect": 9, "similarity": 12, "sampled": 4}
+                 "unique_intersect": 9, "similarity": 12, "sampled": 4,
+                 "pairs_permuted": 6, "two_set_permuted": 4, "similarity_permuted": 4, "sort_history": 5, "sampled_permuted": 2}
     else:
         allot = {"clip": 5, "extend": 8, "geometry": 25, "merge": 15, "pairs": 30, "global_intersect": 25, "coverage": 55, "sort": 105,
-                 "unique_intersect": 105, "similarity": 170, "sampled": 57}
+                 "unique_intersect": 105, "similarity": 170, "sampled": 57,
+                 "pairs_permuted": 45, "two_set_permuted": 25, "similarity_permuted": 40, "sort_history": 30, "sampled_permuted": 12}
     import time
     started = {}
     cut = set()
-    for section, case in gen_cases(tier, col.rng):
+    for section, case in gen_cases(tier, col.rng, seed):
         t = time.time()
         if section in cut:
             continue
